@@ -118,7 +118,9 @@ def _rhs(draw, op, chain):
         return {'kind': 'pool', 'i': draw(st.integers(0, 7))}
     if kind == 'fresh':
         return {'kind': 'fresh', 'vals': draw(_vals(nonzero)), 'errs': draw(_ERRS),
-                'share': draw(st.booleans()), 'what': draw(_TEXT)}
+                'share': draw(st.booleans()), 'what': draw(_TEXT),
+                # the right operand may lack bins, or be the only one to have some
+                'binmode': draw(st.sampled_from(['same', 'same', 'same', 'none', 'only-rhs']))}
     if kind == 'arr':
         return {'kind': 'arr', 'vals': draw(_vals(nonzero))}
     if kind == 'int':
@@ -318,6 +320,13 @@ class _Run:
         if rkind == 'fresh':
             bins = OrderedDict((k, v if rhs['share'] else v.copy())
                                for k, v in lhs.ds.bins.items())
+            binmode = rhs.get('binmode', 'same')
+            if binmode == 'none' and bins:
+                bins = OrderedDict()
+                self.labels.add('rhs=dataset-without-bins')
+            elif binmode == 'only-rhs' and not bins and shape:
+                bins = dsutil.make_bins(shape, ['e' if n % 2 else 'c' for n in shape])
+                self.labels.add('rhs=dataset-with-bins-lhs-without')
             try:
                 dset = Dataset(_tile(rhs['vals'], shape), _tile(rhs['errs'], shape),
                                bins=bins, name='fresh', what=rhs['what'])
